@@ -192,6 +192,7 @@ func TestC05Layouts(t *testing.T) {
 	ev.SetRule("rapid: one generated history (index/delete ops over 8 ids); 2-4 physical layouts of it drawn from {memory one-op-per-batch, memory single batch, memory as generated, memory random cuts, other zap version 11-17, disk with drawn persister/merge options after persist, after forced merge to one segment, after close/reopen, after background work settled}; " +
 		"5 requests each from (query tree) x sort(score,_id,field+_id) x fields * x include locations x html highlight x 0-2 facets x score none; " +
 		"oracle = pairwise equality of normalised results with the first layout (ids, order, Total, MaxScore and scores at 1e-9 relative (1e-6 across zap versions), stored fields, term locations as sets, fragments of single-valued fields, facets); " +
+		"merge planner: mergeplan.Plan on 2-10 generated segments (sizes 1-12, some with deletions) under generated options (segments per tier 1-4, max segment size 2..3x the largest segment, tier growth 1-5, 2-8 segments per task, floor 1-8) must assign every segment to at most one task, name only offered segments and produce no empty task (non-trivial = >=2 tasks); forced merge under such options on 3-8 persisted segments must leave DocCount, match-all and term searches unchanged (non-trivial = fewer segments afterwards); " +
 		"non-trivial = the layouts differ in segment or tombstone count and the request returns >=2 hits with score>0")
 	ev.Assume("order is compared exactly because every sort ends in _id; hits whose scores agree within 10x tolerance may swap under a score sort")
 	checkPropN(t, "C05", 150, func(t *rapid.T) {
